@@ -5,6 +5,7 @@ import (
 	"sync"
 
 	"capnproto.org/go/capnp/v3"
+	"capnproto.org/go/capnp/v3/internal/verifhook"
 	rpccp "capnproto.org/go/capnp/v3/std/capnp/rpc"
 )
 
@@ -219,11 +220,13 @@ func (e *embargo) lift() {
 		c = e.c.AddRef()
 	}
 	e.mu.Unlock()
+	verifhook.Yield(762)
 	e.p.Fulfill(c)
 	c.Release()
 }
 
 func (e *embargo) Send(ctx context.Context, s capnp.Send) (*capnp.Answer, capnp.ReleaseFunc) {
+	verifhook.Yield(760)
 	select {
 	case <-e.lifted:
 		return e.c.SendCall(ctx, s)
@@ -233,6 +236,7 @@ func (e *embargo) Send(ctx context.Context, s capnp.Send) (*capnp.Answer, capnp.
 }
 
 func (e *embargo) Recv(ctx context.Context, r capnp.Recv) capnp.PipelineCaller {
+	verifhook.Yield(761)
 	select {
 	case <-e.lifted:
 		return e.c.RecvCall(ctx, r)
